@@ -111,6 +111,11 @@ PROFILES = {
                 child_kinds={'ok': 0.6, 'exit_late': 0.2, 'exit_early': 0.1, 'backoff_then_ok': 0.05, 'exec_fail': 0.05},
                 supvisors_failure_strategies=['CONTINUE'], p_auto_fence=0.3, formulas=0.7,
                 inactivity_ticks=[2, 2, 3], hostile=0.0, window=(18.0, 140.0), quiesce=40.0, n_events=(10, 100)),
+    'C17': dict(BASE, max_faults=3, min_faults=0, ops='gated', min_ops=6, max_ops=16, p_trigger_op=0.55, p_managed=0.7,
+                p_late_boot=0.4, p_absent=0.2, fault_weights={'crash': 1, 'restart': 3, 'partition': 2, 'child_exit': 1},
+                conciliation_strategies=['USER', 'USER', 'SENICIDE', 'STOP'], ops_window=(1.0, 200.0),
+                synchro_pool=['USER', 'USER', 'TIMEOUT', 'STRICT', 'LIST', 'CORE'], child_kinds=SIMPLE_CHILDREN,
+                supvisors_failure_strategies=['CONTINUE', 'CONTINUE', 'RESYNC'], n_groups=[2, 3], quiesce=60.0),
     'C02': dict(BASE, max_faults=6, ops='fsm', running_failure=gen.RUNNING_FAILURE + ['RESTART', 'SHUTDOWN'],
                 p_autostart=0.4, p_late_boot=0.4,
                 fault_weights={'crash': 2, 'restart': 3, 'partition': 2, 'stall': 1, 'slow': 1, 'clock_jump': 0.5,
@@ -199,6 +204,9 @@ def observers_for(prop, scen):
     elif prop == 'C13':
         from oracles import isolation
         obs.append(isolation.Isolation())
+    elif prop == 'C17':
+        from oracles import gating
+        obs.append(gating.Gating())
     elif prop == 'C15':
         from oracles import appstatus
         obs.append(appstatus.ApplicationStatusMonitor())
